@@ -56,8 +56,9 @@ impl<'a> RedefinitionChecker<'a> {
         // Keys are the definition's fully-scoped identifiers, and values are references to the definitions themselves.
         let mut seen_definitions = HashMap::new();
 
-        // Modules share the AST's lookup table with definitions, so a definition cannot have the same scoped identifier
-        // as a module. We collect all the modules up front, so this check doesn't depend on the order of the files.
+        // Modules share the AST's lookup table with definitions and their members, so none of these can have the same
+        // scoped identifier as a module. We collect all the modules up front, so this check doesn't depend on the order
+        // of the files.
         let mut seen_modules: HashMap<String, &'a Module> = HashMap::new();
         for node in ast.as_slice() {
             if let Node::Module(module_ptr) = node {
@@ -72,12 +73,7 @@ impl<'a> RedefinitionChecker<'a> {
             let Ok(definition) = <&dyn Entity>::try_from(node) else { continue };
 
             if let Some(module) = seen_modules.get(&definition.parser_scoped_identifier()) {
-                if !matches!(
-                    definition.concrete_entity(),
-                    Entities::Field(_) | Entities::Enumerator(_) | Entities::Operation(_) | Entities::Parameter(_)
-                ) {
-                    self.report_redefinition_error(definition, *module);
-                }
+                self.report_redefinition_error(definition, *module);
             }
 
             match definition.concrete_entity() {
